@@ -88,6 +88,42 @@ Definition key_eqb (a b : Z * Z * Z) : bool :=
   let '(a1, a2, a3) := a in let '(b1, b2, b3) := b in
   (a1 =? b1)%Z && (a2 =? b2)%Z && (a3 =? b3)%Z.
 
+(* a concrete field containing sqrt 2 and i, used only to validate the normal form:  a + b sqrt2 + c i + d i sqrt2 *)
+Definition k4 := (Q * Q * Q * Q)%type.
+Definition k4_mul (x y : k4) : k4 :=
+  let '(a, b, c, d) := x in let '(a', b', c', d') := y in
+  (Qred (a * a' + 2 * b * b' - c * c' - 2 * d * d'),
+   Qred (a * b' + b * a' - c * d' - d * c'),
+   Qred (a * c' + c * a' + 2 * b * d' + 2 * d * b'),
+   Qred (a * d' + d * a' + b * c' + c * b')).
+Definition k4_of (q : Q) : k4 := (q, 0, 0, 0).
+Definition k4_t : k4 := (0, 1, 0, 0).            (* sqrt 2 *)
+Definition k4_tinv : k4 := (0, 1 # 2, 0, 0).     (* 1 / sqrt 2 *)
+Definition k4_i : k4 := (0, 0, 1, 0).
+Definition k4_iinv : k4 := (0, 0, - (1), 0).
+Definition k4_eqb (x y : k4) : bool :=
+  let '(a, b, c, d) := x in let '(a', b', c', d') := y in
+  Qeq_bool a a' && Qeq_bool b b' && Qeq_bool c c' && Qeq_bool d d'.
+Fixpoint k4_npow (x : k4) (n : nat) : k4 := match n with O => k4_of 1 | S k => k4_mul x (k4_npow x k) end.
+Definition k4_zpow (x xinv : k4) (z : Z) : k4 :=
+  match z with Z0 => k4_of 1 | Zpos p => k4_npow x (Pos.to_nat p) | Zneg p => k4_npow xinv (Pos.to_nat p) end.
+(* value of a prefactor at sqrt(omega) = s (rational, non-zero), by the literal definition ... *)
+Definition sc_eval (s : Q) (x : scal) : k4 :=
+  k4_mul (k4_of (sq x * Qpower s (sw x))) (k4_mul (k4_zpow k4_t k4_tinv (s2 x)) (k4_zpow k4_i k4_iinv (si x))).
+(* ... and through the normal form *)
+Definition sc_eval_nf (s : Q) (x : scal) : k4 :=
+  let '(w, t, i) := sc_key x in
+  k4_mul (k4_of (sc_rat x * Qpower s w)) (k4_mul (k4_zpow k4_t k4_tinv t) (k4_zpow k4_i k4_iinv i)).
+Definition zrange (lo : Z) (n : nat) : list Z := map (fun k => (lo + Z.of_nat k)%Z) (seq 0 n).
+Definition scal_nf_ok (s : Q) : bool :=
+  forallb (fun w => forallb (fun t => forallb (fun i =>
+     let x := mk_scal (3 # 7) w t i in
+     let y := mk_scal (- (5 # 2)) (t - w) (i + 1) (w - t) in
+     k4_eqb (sc_eval s x) (sc_eval_nf s x)
+     && k4_eqb (sc_eval s (sc_mul x y)) (k4_mul (sc_eval s x) (sc_eval s y))
+     && k4_eqb (sc_eval_nf s (sc_mul x y)) (k4_mul (sc_eval_nf s x) (sc_eval_nf s y)))
+   (zrange (-6) 13)) (zrange (-5) 11)) (zrange (-4) 9).
+
 Definition sc_i : scal := mk_scal 1 0 0 1.
 Definition sc_one : scal := mk_scal 1 0 0 0.
 
@@ -138,7 +174,16 @@ Definition vsem (v : vec) : mat := fun m n =>
 Definition vscale (c : Q) (v : vec) : vec := fun mo => c * v mo.
 Definition vadd (u v : vec) : vec := fun mo => u mo + v mo.
 Definition vsub (u v : vec) : vec := fun mo => u mo - v mo.
-Definition veqb (u v : vec) : bool := forallb (fun mo => Qeq_bool (u mo) (v mo)) monos.
+(* b b+ = b+ b + 1 holds for the untruncated operators, so the seven monomials are not independent as matrices:
+   canonical form eliminates Mbbd; the remaining six are linearly independent *)
+Definition vcanon (v : vec) : vec := fun mo =>
+  match mo with
+  | Mbbd => 0
+  | Mbdb => v Mbdb + v Mbbd
+  | MI => v MI + v Mbbd
+  | _ => v mo
+  end.
+Definition veqb (u v : vec) : bool := forallb (fun mo => Qeq_bool (vcanon u mo) (vcanon v mo)) monos.
 Definition deg1b (v : vec) : bool :=
   Qeq_bool (v Mbb) 0 && Qeq_bool (v Mbdbd) 0 && Qeq_bool (v Mbdb) 0 && Qeq_bool (v Mbbd) 0.
 (* product of two combinations of degree <= 1 *)
@@ -230,20 +275,30 @@ Definition shift_check (t : table) (tx : list (string * list (nat * scal * comb)
   | Some tms, Some sps => terms_match t tms sps
   | _, _ => false
   end.
-(* symbols whose shifted form is claimed as a theorem (Props/C16.v); the product symbols "x p", "p x", "x dx",
-   "dx x" are evaluated by the harness through [shift_check] and reported there *)
-Definition shift_symbols : list string := ["x"; "x^2"; "p"; "p^2"; "dx"; "dx^2"; "dx dx"; "I"]%string.
-Definition shift_product_symbols : list string := ["x p"; "p x"; "x dx"; "dx x"]%string.
+(* symbols whose shifted form is claimed as a theorem (Props/C16.v) *)
+Definition shift_symbols : list string :=
+  ["x"; "x^2"; "p"; "p^2"; "dx"; "dx^2"; "dx dx"; "I"; "x p"; "p x"; "x dx"; "dx x"]%string.
+
+(* ---------------------------------------------------------------- DVR variant: which branches are returned in the DVR frame *)
+(* DvrRotate: the branch ends in  dvr_v^T . mat . dvr_v ;  DvrDiagPow k: the branch returns diag(dvr_x^k), i.e. the
+   k-th power of the truncated x in its eigenbasis.  The second-quantised symbols (b, b^dagger, n, ...) stay in the
+   plain frame (documented as unsupported together with a shifted origin) and are not listed. *)
+Definition dvr_frame_symbols : list string :=
+  ["x"; "x^2"; "p"; "p^2"; "dx"; "dx^2"; "dx dx"; "x p"; "p x"; "x dx"; "dx x"]%string.
+Definition dvr_in_frame (k : dvr_kind) : bool :=
+  match k with DvrRotate | DvrDiagPow _ => true | _ => false end.
+Definition dvr_check (t : list (string * dvr_kind)) (s : string) : bool :=
+  match lookup s t with Some k => dvr_in_frame k | None => false end.
 
 (* ---------------------------------------------------------------- general power formula (x_power_k / p_power_k) *)
-Fixpoint fact (n : nat) : nat := match n with O => 1 | S k => (S k) * fact k end.
-Fixpoint dfact_fuel (fuel n : nat) : nat :=
+Fixpoint fact (n : nat) : Z := match n with O => 1%Z | S k => (Z.of_nat (S k) * fact k)%Z end.
+Fixpoint dfact_fuel (fuel n : nat) : Z :=
   match fuel with
-  | O => 1
-  | S f => match n with O => 1 | 1%nat => 1 | S (S j) => n * dfact_fuel f j end
+  | O => 1%Z
+  | S f => match n with O => 1%Z | 1%nat => 1%Z | S (S j) => (Z.of_nat n * dfact_fuel f j)%Z end
   end.
-Definition dfact (n : nat) : nat := dfact_fuel n n.
-Definition qnat (n : nat) : Q := inject_Z (Z.of_nat n).
+Definition dfact (n : nat) : Z := dfact_fuel n n.           (* double factorial, 0!! = 1!! = 1 *)
+Definition qnat (z : Z) : Q := inject_Z z.
 
 (* n! * sum_{s = max(0,(m+n-k)/2)}^{min(m,n)}  k! / ((m-s)! s! (n-s)! (k-m-n+2s)!!)    (0 when m+n-k is odd):
    <m|X^k|n> of the source, X = (b + b+)/sqrt 2, multiplied by 2^(k/2) and moved to the rational picture *)
@@ -256,15 +311,25 @@ Definition xpow_rat (k m n : nat) : Q :=
       else 0 in
   Qred (qnat (fact n) * fold_right (fun s acc => Qred (term s + acc)) 0 (seq s0 (S (Nat.min m n) - s0))).
 
+(* memoised power (same values as mpow on the first K levels, see LadderProofs.mpow_memo_ok) *)
+Definition tabulate (K : nat) (A : mat) : list (list Q) :=
+  map (fun m => map (fun n => Qred (A m n)) (seq 0 K)) (seq 0 K).
+Definition of_tab (T : list (list Q)) : mat := fun m n => nth n (nth m T []) 0.
+Definition memo (K : nat) (A : mat) : mat := of_tab (tabulate K A).
+Fixpoint mpow_memo (K : nat) (A : mat) (k : nat) : mat :=
+  match k with O => mid | S j => memo K (mmul K (mpow_memo K A j) A) end.
+
 Definition Xr : mat := fun m n => mono_inf Mb m n + mono_inf Mbd m n.       (* b~ + b~+ *)
 Definition Dr : mat := fun m n => mono_inf Mbd m n - mono_inf Mb m n.       (* b~+ - b~ *)
 Definition sign_pow (d : nat) : Q := if Nat.even d then 1 else -1.
 
-Definition xpow_ok (K k m n : nat) : bool := Qeq_bool (xpow_rat k m n) (mpow K Xr k m n).
-Definition ppow_ok (K k m n : nat) : bool :=
-  Qeq_bool (mpow K Dr k m n) (sign_pow ((k + n - m) / 2) * xpow_rat k m n).
-Definition range_ok (f : nat -> nat -> nat -> bool) (kmax mmax : nat) : bool :=
-  forallb (fun k => forallb (fun m => forallb (fun n => f k m n) (seq 0 (S mmax))) (seq 0 (S mmax))) (seq 0 (S kmax)).
+Definition xpow_ok (P : mat) (k m n : nat) : bool := Qeq_bool (xpow_rat k m n) (P m n).
+Definition ppow_ok (P : mat) (k m n : nat) : bool :=
+  Qeq_bool (P m n) (sign_pow ((k + n - m) / 2) * xpow_rat k m n).
+(* f is given the k-th power (computed once per k) *)
+Definition range_ok (f : mat -> nat -> nat -> nat -> bool) (K : nat) (A : mat) (kmax mmax : nat) : bool :=
+  forallb (fun k => let P := mpow_memo K A k in
+                    forallb (fun m => forallb (fun n => f P k m n) (seq 0 (S mmax))) (seq 0 (S mmax))) (seq 0 (S kmax)).
 
 (* ---------------------------------------------------------------- HOPS boson (BasisHopsBoson) *)
 Definition hops_bd : mat := fun m n => if (m =? n + 1)%nat then qn m else 0.     (* b~+ |n> = (n+1) |n+1> *)
